@@ -46,9 +46,9 @@ Print Assumptions C13_literal_handlers.
 
 (* the funnel: which exceptions raised at which stage surface as what *)
 Theorem C13_funnel : forall st x,
-  (fst (surfaced st x) = OInvalid <-> x = XInvalid \/ (x = XParse /\ st <> SVisit))
+  (fst (surfaced st x) = OInvalid <-> x = XInvalid \/ (handled_in_parser x = true /\ st <> SVisit))
   /\ (fst (surfaced st x) = OOther <-> x = XMemoryOrSystem)
-  /\ (fst (surfaced st x) = OInternal <-> x <> XInvalid /\ x <> XMemoryOrSystem /\ (x = XParse -> st = SVisit))
+  /\ (fst (surfaced st x) = OInternal <-> x <> XInvalid /\ x <> XMemoryOrSystem /\ (handled_in_parser x = true -> st = SVisit))
   /\ (fst (surfaced st x) <> OOther -> snd (surfaced st x) = true).
 Proof.
   intros. split; [apply funnel_invalid|]. split; [apply funnel_other|]. split; [apply funnel_internal|apply funnel_path].
@@ -63,16 +63,26 @@ Theorem C13_before_F4_refuted :
 Proof. exact before_F4_leaks. Qed.
 Print Assumptions C13_before_F4_refuted.
 
-(* the funnel has no handler for failure modes of the unmodelled layers: a RecursionError of the PEG engine or an
-   OSError / UnicodeDecodeError while the file is read become InternalError.  Witnesses exist on the implementation
-   side (43 nested parentheses; a directory named X.1.0.dsdl; a file that is not UTF-8), so the full property is
-   false of the current tree: this is the refutation of the unrestricted statement. *)
+(* failure modes of the unmodelled layers.  Repaired (F17, F19): a RecursionError of the PEG engine and a file
+   that is not UTF-8 surface as InvalidDefinitionError with the path. *)
+Theorem C13_repaired_leaks :
+  surfaced SGrammar XRecursion = (OInvalid, true)
+  /\ surfaced SFlush XRecursion = (OInvalid, true)
+  /\ surfaced_outside_parser XUnicodeDecode = (OInvalid, true).
+Proof. exact repaired_leaks. Qed.
+Print Assumptions C13_repaired_leaks.
+
+(* What the funnel still does not handle: a RecursionError while visiting or in finalize becomes InternalError, an
+   OSError while the file is read becomes InternalError, and an exception raised outside every try block of
+   _read_definitions reaches the caller raw.  For the last one a witness exists on the implementation side
+   (a structure with 200 fields: RecursionError while hashing the new composite), so the unrestricted statement
+   of C13 is false of the current tree: this is its refutation in terms of the funnel. *)
 Theorem C13_unmodelled_leaks_refuted :
-  surfaced SGrammar XRecursion = (OInternal, true)
-  /\ surfaced SVisit XRecursion = (OInternal, true)
+  surfaced SVisit XRecursion = (OInternal, true)
   /\ surfaced_outside_parser XOSError = (OInternal, true)
-  /\ surfaced_outside_parser XUnicodeDecode = (OInternal, true).
-Proof. exact unmodelled_leaks. Qed.
+  /\ surfaced_outside_parser XRecursion = (OInternal, true)
+  /\ surfaced_outside_funnel XRecursion = (OOther, false).
+Proof. exact remaining_leaks. Qed.
 Print Assumptions C13_unmodelled_leaks_refuted.
 
 (* non-vacuity *)
